@@ -50,6 +50,26 @@ def parse(code, mode="exec", lineno_offset=0, **exception_kwargs):
         ) from e
 
 
+def split_for_header(code):
+    """Return the target and the iterable of a ``for ... in ...:`` header as
+    they are written, or None when Python does not read it as one."""
+
+    import ast
+
+    source = code + "\n    pass"
+    try:
+        stmt = ast.parse(source).body[0]
+    except SyntaxError:
+        return None
+    if not isinstance(stmt, _ast.For):
+        return None
+    target = ast.get_source_segment(source, stmt.target)
+    iterable = ast.get_source_segment(source, stmt.iter)
+    if isinstance(stmt.iter, _ast.Tuple):
+        iterable = "(%s)" % iterable
+    return target, iterable
+
+
 def _adjust_lineno(exc, lineno_offset, exception_kwargs):
     """Return ``exception_kwargs`` with the line of ``exc`` within the parsed
     code applied to it.
